@@ -85,3 +85,43 @@ Definition C06_nextLocation_from_inside := next_Inside_spec.
 Definition C06_nextLocation_is_another_location := next_is_another_location.
 Print Assumptions C06_getLocation.
 Print Assumptions C06_nextLocation_opposite_first.
+
+(* K3, second batch of kernels (Gen/Kernels2_gen.v, regenerated from core.go / rect_clip.go on every run): the
+   rectangle predicates the drivers decide with ("wholly inside: unchanged", "bounds do not meet: nothing") and the
+   end-point branches of getSegmentIntersection *)
+From Clip Require Import Model.Measures Gen.Kernels2_gen Model.Kernel2Proofs.
+Theorem C06_rect_contains_from_source : forall l t r b l' t' r' b', (l' <= r')%Z -> (t' <= b')%Z ->
+  (gen_Rect64_Contains l t r b l' t' r' b' = true <->
+   forall x y, in_rect l' t' r' b' x y -> in_rect l t r b x y).
+Proof. exact Rect64_Contains_points. Qed.
+Theorem C06_rect_intersects_from_source : forall l t r b l' t' r' b',
+  gen_Rect64_Intersects l t r b l' t' r' b' = true <->
+  exists x y, in_rect l t r b x y /\ in_rect l' t' r' b' x y.
+Proof. exact Rect64_Intersects_points. Qed.
+Theorem C06_rect_isEmpty_from_source : forall l t r b,
+  gen_Rect64_IsEmpty l t r b = false <-> (l < r /\ t < b)%Z.
+Proof. exact Rect64_IsEmpty_spec. Qed.
+Theorem C06_rect_midpoint_inside : forall l t r b,
+  (Z.abs l < 2 ^ 62 -> Z.abs t < 2 ^ 62 -> Z.abs r < 2 ^ 62 -> Z.abs b < 2 ^ 62 -> l <= r -> t <= b ->
+  let m := gen_Rect64_MidPoint l t r b in in_rect l t r b (fst m) (snd m))%Z.
+Proof. exact Rect64_MidPoint_inside. Qed.
+Theorem C06_overlap_tests_from_source :
+  (forall a1 t1 a2 b1 a3 t2 a4 b2, gen_hasVertOverlap a1 t1 a2 b1 a3 t2 a4 b2 = true <-> (t1 < b2 /\ t2 < b1)%Z) /\
+  (forall l1 a1 r1 a2 l2 a3 r2 a4, gen_hasHorzOverlap l1 a1 r1 a2 l2 a3 r2 a4 = true <-> (l1 < r2 /\ l2 < r1)%Z).
+Proof. split; [exact hasVertOverlap_spec | exact hasHorzOverlap_spec]. Qed.
+(* every point getSegmentIntersection reports (within 2^29) lies on BOTH closed segments, exactly, unless the
+   segments cross properly, in which case the point is getSegmentIntersectPt's (C13 bounds that one) *)
+Theorem C06_segment_intersection_sound : forall p1 p2 p3 p4 ip,
+  coord_ok two29 p1 -> coord_ok two29 p2 -> coord_ok two29 p3 -> coord_ok two29 p4 ->
+  gen_getSegmentIntersection (px p1) (py p1) (px p2) (py p2) (px p3) (py p3) (px p4) (py p4) = (ip, true) ->
+  (on_segment p1 p2 ip = true /\ on_segment p3 p4 ip = true)
+  \/ (proper_cross p1 p2 p3 p4 /\
+      gen_getSegmentIntersectPt (px p1) (py p1) (px p2) (py p2) (px p3) (py p3) (px p4) (py p4) = (ip, true)).
+Proof. exact getSegmentIntersection_sound. Qed.
+Example C06_segment_intersection_example :
+  gen_getSegmentIntersection 0 0 10 10 0 10 10 0 = ((5, 5), true)%Z /\
+  gen_getSegmentIntersection 0 0 10 0 5 0 5 7 = ((5, 0), true)%Z /\
+  gen_getSegmentIntersection 0 0 10 0 11 0 11 7 = ((0, 0), false)%Z.
+Proof. vm_compute. repeat split; reflexivity. Qed.
+Print Assumptions C06_rect_contains_from_source.
+Print Assumptions C06_segment_intersection_sound.
